@@ -45,6 +45,18 @@ class CallMixin:
                 if k not in ost.env:
                     ost.env[k] = v
             return self.eval(node.args[0], ost, want)
+        if (isinstance(fnode, ast.Attribute) and isinstance(fnode.value, ast.Call) and isinstance(fnode.value.func, ast.Name)
+                and fnode.value.func.id == "super" and not fnode.value.args):
+            # super().m(...): the method of the declared parent class, on the same object
+            me = st.env.get("self")
+            parent = getattr(self.E, "parents", {}).get(me.cls if isinstance(me, ObjRef) else None)
+            if parent is None:
+                raise Unsupported("super() without a declared parent class")
+            c = self.find_method_contract(parent, fnode.attr)
+            if c is None:
+                raise Unsupported(f"no contract for {parent}.{fnode.attr}")
+            args, kwargs = self.eval_args(node, st)
+            return self.apply_contract(c, me, args, kwargs, st, node)
         f = self.eval(fnode, st)
         args, kwargs = self.eval_args(node, st, f)
         return self.apply(f, args, kwargs, st, node, want)
@@ -228,6 +240,11 @@ class CallMixin:
                 return pt.kind == "rec" and pt.name == cls.name
             if isinstance(cls, ObjClass):
                 return isinstance(x, ObjRef) and x.cls == cls.name
+            if isinstance(cls, Builtin) and cls.name in ("set", "frozenset", "list", "tuple", "dict", "int", "bool"):
+                kinds = {"set": ("set",), "frozenset": ("set",), "list": ("seq", "arr"), "tuple": ("tuple",), "dict": ("map",), "int": ("int", "bool"), "bool": ("bool",)}[cls.name]
+                if isinstance(x, (list, tuple, dict)) and not isinstance(x, SV):
+                    return {list: "list", tuple: "tuple", dict: "dict"}[type(x)] == cls.name
+                return pt.kind in kinds
             raise Unsupported("isinstance against an unmodelled class")
         if name == "the":
             (x,) = args
@@ -412,6 +429,11 @@ class CallMixin:
                 present = smt.Select(ops.map_dom(recv), kt)
                 val = SV(smt.Select(ops.map_val(recv), kt), recv.pt.args[1])
                 return ops.ite_val(present, val, default)
+            if k == "ref" and name == "traverse" and "size" in self.E.specs:
+                strategy = args[0] if args else kwargs.get("strategy", "levelorder")
+                if strategy not in ("preorder", "postorder", "levelorder"):
+                    raise Unsupported(f"traverse strategy {strategy!r}")
+                return ("#traverse", recv, strategy)
             if k == "ref":
                 c = self.find_method_contract(recv.pt.name, name)
                 if c is not None:
@@ -420,6 +442,9 @@ class CallMixin:
 
     def find_method_contract(self, cls, name, args=None):
         cs = self.E.registry.by_method.get((cls, name))
+        while not cs and cls in getattr(self.E, "parents", {}):
+            cls = self.E.parents[cls]
+            cs = self.E.registry.by_method.get((cls, name))
         if not cs:
             return None
         if len(cs) == 1 or args is None:
@@ -463,6 +488,12 @@ class CallMixin:
             names = names[1:]
         pos = list(args)
         for n in names:
+            if n == vararg and not any(isinstance(a, StarArg) for a in pos):
+                # statically known arity: bind the parameter to a Python tuple (len and constant indices fold)
+                spt = ptys[n]
+                env[n] = tuple(self.ops.sv(a, spt.args[0]) for a in pos)
+                pos = []
+                continue
             if n == vararg:
                 spt = ptys[n]
                 t = smt.SeqEmpty(self.tenv.sort(spt.args[0]))
@@ -491,7 +522,7 @@ class CallMixin:
             elif pt.kind == "obj":
                 if not isinstance(v, ObjRef):
                     raise Unsupported(f"call of {c.target}: argument {n} is not an object ({v!r})")
-                if v.cls != pt.name and pt.name not in getattr(self.E, "subclasses", {}).get(v.cls, ()):
+                if v.cls != pt.name and getattr(self.E, "parents", {}).get(v.cls) != pt.name:
                     raise Unsupported(f"call of {c.target}: argument {n} has class {v.cls}, contract wants {pt.name}")
                 env[n] = v
             elif pt.kind == "any":
